@@ -17,8 +17,14 @@ Boundary == {
   "1e5", "1E5", "1e+5", "1e-5", "1.e5", ".1e5", "1e05", "inf", "+inf", "-inf", "Inf", "infinity", "NaN", "nan", "true", "false",
   "1_000", "1,5", "0x", "0b", "0o", "0x1g", "0b12", "0o18", "1 ", " 1", "1 2", "--1", "+-1", "1-", "1e", "1e+", "e5", ".", "-", "+", "-.", "1..2",
   "0x1.8p3", "1d5", "1f", "0xFF", "0XFF", "0Xff", "1/2", "1:2", "abc", "0xabcdefg" }
+\* hexadecimal digits are letters of either case: the 15- and 16-digit spellings (the latter reach bit 63, "0x8000000000000000 ..
+\* 0xffffffffffffffff are two's-complement negative ints") under every leading digit of both cases
+HexFirst == {"1", "7", "8", "9", "a", "A", "b", "B", "c", "C", "d", "D", "e", "E", "f", "F"}
+HexRest15 == {"000000000000000", "fffffffffffffff", "FFFFFFFFFFFFFFF", "bcdef0123456789", "BCDEF0123456789"}
+HexEdge == {"0x" \o d \o r : d \in HexFirst, r \in HexRest15} \cup {"0x" \o r : r \in HexRest15}
+           \cup {"-0x" \o d \o "000000000000000" : d \in {"7", "8", "F", "f"}}
 FlagSets == { {}, {"-S"}, {"-A"}, {"-O"} }      \* (the effect of combining inference flags is not documented)
 Sources == {"field", "jsonnumber", "jsonstring"}
-Emit == PrintT(ToJson([alphabet |-> SetToSeq(Alphabet), boundary |-> SetToSeq(Boundary),
+Emit == PrintT(ToJson([alphabet |-> SetToSeq(Alphabet), boundary |-> SetToSeq(Boundary \cup HexEdge),
                         flagsets |-> SetToSeq({SetToSeq(f) : f \in FlagSets}), sources |-> SetToSeq(Sources)]))
 =============================================================================
